@@ -2,7 +2,7 @@
    Statements only; every proof is `exact <lemma of CoroVMProofs>` (the refutation is a computation).
    Quantification: any main script and any family of coroutine scripts (p : nat -> list instr, i.e. any number of
    coroutines and steps), any number n of machine steps (every run prefix, no termination assumption). *)
-From Cocls Require Import Base CoroVMDefs CoroVMProofs.
+From Cocls Require Import Base CoroVMDefs CoroVMProofs CoroVMNoPreempt.
 Local Open Scope nat_scope.
 
 (* drain: whenever control is back in normal code the ready queue is empty, coroutine mode is off and the C++ stack
@@ -67,7 +67,20 @@ Theorem c05_discard_normal_mode : forall s me h t,
 Proof. exact discard_sp_normal. Qed.
 Print Assumptions c05_discard_normal_mode.
 
-(* ---- no pre-emption: the statement of the property text, and what the code does ---- *)
+(* ---- no pre-emption ---- *)
+(* what the code guarantees, for every reachable moment k at which a coroutine r is in control (in particular right after r
+   queued somebody through a discarded suspend point — c05_discard_only_queues leaves r in control) and every continuation n:
+   in chronological order, the events that follow contain no `ERun` at all before the first of `ESusp r`, `EFin r`,
+   `ENest r _` (r entered async::start()).  `guarded r l`: l = [] or its head is such a marker, or its head is not an ERun
+   and the tail is guarded. *)
+Theorem c05_no_preempt : forall p m k r n,
+  let s := steps k (init p m) in
+  cur s = CRun r ->
+  exists evs, log (steps n s) = evs ++ log s /\ guarded r (rev evs).
+Proof. intros p m k r n s C. apply no_preempt; [apply shape_reach|exact C]. Qed.
+Print Assumptions c05_no_preempt.
+
+(* the statement of the property text has no `ENest` escape: *)
 (* literal reading: between `EEnq c r discard` (r a coroutine) and the next `ERun c` there is `ESusp r` or `EFin r` *)
 Definition no_preempt_literal (t : list event) : Prop :=
   forall i c r, nth_error t i = Some (EEnq c r why_discard) -> r <> 0 ->
